@@ -15,6 +15,7 @@ def run(rep):
     w = rep.world('dev')
     f2(rep, w)
     f3(rep, w)
+    f4(rep, w)
 
 
 def value_key(paths):
@@ -217,8 +218,10 @@ def f2(rep, w):
                     if s['r'].get('rv') == 'use' and 'ip' in operand_fields(f, org, s['r']['o']):
                         saves.append(bi)
         sw = [bi for bi, t in f.calls() if strip_generics(callee_name(t) or '') in switch]
+        if nm != 'call_closure':
+            sw = [e['block'] for e in fiber_events(w, f) if e['kind'] == 'F']
         if not sw:
-            raise Broken('C09', 'anchor', '%s: frame/fiber switch call not found' % nm)
+            raise Broken('C09', 'anchor', '%s: frame/fiber switch not found' % nm)
         ok = bool(saves) and all(any(b in f.reachable_blocks(s) and s not in f.reachable_blocks(b) for s in saves) for b in sw)
         r.check(ok, nm, 'the running frame\'s ip (Vm.ip) is not stored into its CallFrame before %s switches frames: when the frame is resumed it '
                 'restarts from a stale address' % nm, f.loc())
@@ -233,7 +236,7 @@ def f3(rep, w):
     r = rep.rule('F3', 'a fiber switch always writes the slot that the resumed side reads as the value of call()/yield()', floor=2)
     for nm in ('load_fiber', 'unload_fiber'):
         f = w.require_fn(VM + nm, 'C09')
-        sw = [bi for bi, t in f.calls() if strip_generics(callee_name(t) or '') == 'std::option::Option::replace']
+        sw = [e['block'] for e in fiber_events(w, f) if e['kind'] == 'F']
         lf = {bi for bi, t in f.calls() if callee_name(t) == VM + 'load_frame'}
         writes = {bi for bi, t in f.calls() if callee_name(t) in (VM + 'poke', VM + 'push')}
         if not sw or not lf:
@@ -253,3 +256,43 @@ def f3(rep, w):
                 stack.extend(f.succs()[b])
         r.check(ok, nm, 'on some path %s switches fibers and resumes without writing the result slot: the resumed call()/yield() expression '
                 'evaluates to whatever was left on the stack' % nm, f.loc())
+
+
+LINK_FIELDS = {'caller', 'fiber', 'unsafe_fiber', 'frames', 'exc_handlers', 'open_upvalues'}
+
+
+def f4(rep, w):
+    """an error reported by a fiber switch leaves the fibers' link state untouched: no write to caller / active fiber /
+    frames / handlers can precede a freshly built Err on any path"""
+    r = rep.rule('F4', 'fiber-switch errors are raised before any fiber link state is written', floor=2)
+    for nm in ('load_fiber', 'unload_fiber'):
+        f = w.require_fn(VM + nm, 'C09')
+        org = origins(f)
+        writes = []
+        for bi in sorted(f.normal_blocks()):
+            for s in f.blocks[bi]['s']:
+                d = s.get('d')
+                if d and d.get('p'):
+                    names = [e.get('n') for e in d['p'] if isinstance(e, dict) and 'n' in e]
+                    if names and names[-1] in LINK_FIELDS and '*' in d['p']:
+                        writes.append((bi, names[-1]))
+            t = f.blocks[bi]['t']
+            if t['t'] == 'call' and t['args']:
+                n = strip_generics(callee_name(t) or '')
+                if n in ('std::option::Option::replace', 'std::option::Option::take', 'std::option::Option::insert', 'std::mem::replace', 'std::mem::swap',
+                         'std::mem::take', 'std::vec::Vec::push', 'std::vec::Vec::pop', 'std::vec::Vec::clear', 'std::vec::Vec::truncate',
+                         'std::vec::Vec::retain'):
+                    pl = op_place(t['args'][0])
+                    toks = set()
+                    for q in org.get(pl['l'], ()) if pl else ():
+                        toks |= set(q[1:])
+                    hit = toks & LINK_FIELDS
+                    if hit:
+                        writes.append((bi, sorted(hit)[0]))
+        errs = [bi for bi in f.normal_blocks() for s in f.blocks[bi]['s']
+                if s.get('d', {}).get('l') == 0 and s['r'].get('rv') == 'agg' and s['r'].get('v') == 'Err']
+        if not errs:
+            raise Broken('C09', 'anchor', '%s: no error return found' % nm)
+        bad = [(wb, fld, e) for (wb, fld) in writes for e in errs if e in f.reachable_blocks(wb) and e != wb]
+        r.check(not bad, nm, 'a write to fiber link state (%s) can be followed by an error return: the reported error leaves a fiber pointing at '
+                'the wrong caller / frame' % sorted({b[1] for b in bad}), f.loc())
